@@ -71,3 +71,13 @@ func Current() interface{} {
 	}
 	return nil
 }
+
+// Depths returns the nesting-stack depths of a library instance through the
+// verif-tag hook, if the hook is compiled in (ok=false otherwise: the
+// idle-depth sub-checks are then skipped, nothing else changes).
+func Depths(inst interface{}) (d []int, ok bool) {
+	if h, is := inst.(interface{ VerifDepths() []int }); is {
+		return h.VerifDepths(), true
+	}
+	return nil, false
+}
